@@ -73,6 +73,19 @@
                                                                                -> RegClean
      "loss_not_forwarded" the transport source does not tell the host that the transport is gone
                           (no fan-out at all)                                  -> LayersAgree, WaitersEnded
+     "idle_not_released"  the fan-out releases only the waiters whose procedure has something under way
+                          (step > 0); a waiter that has not moved yet - a drain of data that is queued in
+                          the host with nothing of it in flight, a prompt the stack opened for the
+                          connection and the user has not answered - is passed over  -> WaitersEnded
+
+   Waiters.  An operation (ops) is anything that awaits on behalf of a connection: the API call of the
+   application, and equally a task the STACK started for the connection while the procedure runs (the
+   delegate prompt of a pairing: confirmation, numeric comparison, passkey input on the keyboard side) and a
+   task that waits for the connection's outbound data to drain (DataPacketQueue.drain / Connection
+   .data_packet_queue.drain / CisLink.drain) in whichever state that data is: in flight in the controller, or
+   queued in the host with NOTHING in flight because other links hold all controller buffers.  The fan-out
+   releases every one of them (FanOps does not look at step, reg or at who made the call); the harness
+   registers each as a `call` and the trace spec's clause <<"pending", o>> judges it.
 *)
 EXTENDS Naturals, FiniteSets, Sequences, TLC
 
@@ -156,10 +169,11 @@ Skipped(d, r, e) == \/ "failed_keeps_regs" \in Bugs /\ FailedEntry(r, e)
 FanRegs(d, cs, keep) ==
     IF keep THEN reg
     ELSE [reg EXCEPT ![d] = [r \in Regs |-> {e \in @[r] : e[1] \notin cs \/ Skipped(d, r, e)}]]
+PassedOver(o) == "idle_not_released" \in Bugs /\ ops[o].step = 0
 FanOps(d, cs, all) ==
     IF "no_release" \in Bugs THEN ops
     ELSE [o \in OpIds |->
-            IF ops[o].st = "waiting" /\ ops[o].dev = d /\ (all \/ ops[o].conn \in cs)
+            IF ops[o].st = "waiting" /\ ops[o].dev = d /\ (all \/ ops[o].conn \in cs) /\ ~PassedOver(o)
             THEN [ops[o] EXCEPT !.st = "released"] ELSE ops[o]]
 
 LinkUp(c) == \A e \in Ends(c) : /\ c \in live["ctrl"][e] /\ c \notin term[e]
